@@ -122,6 +122,11 @@ Proof. unfold same_acct; intros r1 r2 r3 (A & B & C) (D & E & F). repeat split; 
 
 Ltac sa := unfold same_acct; cbn; auto.
 
+(** unset zeroed-once flags of a runtime *)
+Definition zc_rt (r : mrt) : N := (if za r then 0 else 1) + (if zb r then 0 else 1).
+Definition flags_mono (r r' : mrt) : Prop :=
+  (za r = true -> za r' = true) /\ (zb r = true -> zb r' = true).
+
 (** ** the generic preorder lemma *)
 Section PreciseSteps.
   (** the precise version: the hypotheses name exactly the kinds of update a
@@ -134,7 +139,8 @@ Section PreciseSteps.
   (** log entries other than the two that carry meaning for limits *)
   Hypothesis R_log : forall mi s e,
     fst (fst e) <> LOG_DEC -> fst (fst e) <> LOG_CHANGE ->
-    fst (fst e) <> LOG_SIGSET -> fst (fst e) <> LOG_SIGDELIVER -> R mi s (add_log s e).
+    fst (fst e) <> LOG_SIGSET -> fst (fst e) <> LOG_SIGDELIVER -> fst (fst e) <> LOG_CZERO ->
+    R mi s (add_log s e).
   Hypothesis R_step : forall mi s, R mi s (add_step s).
   Hypothesis R_pos : forall mi s p, (pos s <= p)%nat -> R mi s (set_pos s p).
   (** the machine ends *)
@@ -144,10 +150,18 @@ Section PreciseSteps.
   Hypothesis R_change : forall mi s r ns l p,
     nth_error (rts s) mi = Some r -> cur r <> ns -> (pos s <= p)%nat ->
     R mi s (set_pos (set_rt (add_log s (LOG_CHANGE, N.of_nat mi, ns)) mi (rt_set_cur r ns l)) p).
-  (** counters are updated: state, limit and accounting fields untouched *)
-  Hypothesis R_ctr : forall mi s r r',
+  (** counters are updated without reaching zero: state, limit, accounting
+      fields and zeroed-once flags untouched *)
+  Hypothesis R_ctr : forall mi s r r' p,
     nth_error (rts s) mi = Some r -> cur r' = cur r -> lim r' = lim r -> same_acct r r' ->
-    R mi s (set_rt s mi r').
+    za r' = za r -> zb r' = zb r -> (pos s <= p)%nat ->
+    R mi s (set_pos (set_rt s mi r') p).
+  (** a counter goes from non-zero to zero for the first time in this call:
+      at least one zeroed-once flag is newly set, CounterZero is raised *)
+  Hypothesis R_czero : forall mi s r r' p,
+    nth_error (rts s) mi = Some r -> cur r' = cur r -> lim r' = lim r -> same_acct r r' ->
+    flags_mono r r' -> zc_rt r' < zc_rt r -> (pos s <= p)%nat ->
+    R mi s (add_log (set_pos (set_rt s mi r') p) (LOG_CZERO, N.of_nat mi, 0)).
   (** the limit is decremented (floored at zero) *)
   Hypothesis R_dec : forall mi s r,
     nth_error (rts s) mi = Some r ->
@@ -204,32 +218,58 @@ Section PreciseSteps.
                | None => (r, pos s, false)
                end) in H.
     assert (HA : (pos s <= snd (fst XA))%nat /\ same_acct r (fst (fst XA))
-                 /\ cur (fst (fst XA)) = cur r /\ lim (fst (fst XA)) = lim r).
+                 /\ cur (fst (fst XA)) = cur r /\ lim (fst (fst XA)) = lim r
+                 /\ zb (fst (fst XA)) = zb r
+                 /\ (if snd XA then za r = false /\ za (fst (fst XA)) = true
+                     else za (fst (fst XA)) = za r)).
     { subst XA. destruct (sctr_a st) as [cn|]; [|cbn; repeat split; solve [lia | reflexivity | auto]].
       destruct (ccopy cn).
-      - destruct (_ && _); cbn; (repeat split; solve [lia | reflexivity | auto]).
+      - destruct (negb (ca r =? 0) && (apply_op (cop cn) (ca r) (cb r) =? 0) && negb (za r)) eqn:Ez; cbn;
+          (repeat split; try solve [lia | reflexivity | auto]).
+        apply andb_prop in Ez. destruct Ez as [_ Ez]. destruct (za r); [discriminate|reflexivity].
       - destruct (sample_value tp (pos s) cn) as [chg p] eqn:Es. apply sample_value_pos in Es.
-        destruct (_ && _); cbn; (repeat split; solve [lia | reflexivity | auto]). }
-    destruct XA as [[rA pA] zA]. cbn in HA. destruct HA as (HA & HAs & HAc & HAl).
+        destruct (negb (ca r =? 0) && (apply_op (cop cn) (ca r) chg =? 0) && negb (za r)) eqn:Ez; cbn;
+          (repeat split; try solve [lia | reflexivity | auto]).
+        apply andb_prop in Ez. destruct Ez as [_ Ez]. destruct (za r); [discriminate|reflexivity]. }
+    destruct XA as [[rA pA] zA]. cbn [fst snd] in HA. destruct HA as (HA & HAs & HAc & HAl & HAb & HAz).
     set (XB := match sctr_b st with
                | Some cn => _
                | None => (rA, pA, false)
                end) in H.
     assert (HB : (pA <= snd (fst XB))%nat /\ same_acct rA (fst (fst XB))
-                 /\ cur (fst (fst XB)) = cur rA /\ lim (fst (fst XB)) = lim rA).
+                 /\ cur (fst (fst XB)) = cur rA /\ lim (fst (fst XB)) = lim rA
+                 /\ za (fst (fst XB)) = za rA
+                 /\ (if snd XB then zb rA = false /\ zb (fst (fst XB)) = true
+                     else zb (fst (fst XB)) = zb rA)).
     { subst XB. destruct (sctr_b st) as [cn|]; [|cbn; repeat split; solve [lia | reflexivity | auto]].
       destruct (ccopy cn).
-      - destruct (_ && _); cbn; (repeat split; solve [lia | reflexivity | auto]).
+      - destruct (negb (cb r =? 0) && (apply_op (cop cn) (cb rA) (ca r) =? 0) && negb (zb rA)) eqn:Ez; cbn;
+          (repeat split; try solve [lia | reflexivity | auto]).
+        apply andb_prop in Ez. destruct Ez as [_ Ez]. destruct (zb rA); [discriminate|reflexivity].
       - destruct (sample_value tp pA cn) as [chg p] eqn:Es. apply sample_value_pos in Es.
-        destruct (_ && _); cbn; (repeat split; solve [lia | reflexivity | auto]). }
-    destruct XB as [[rB pB] zB]. cbn in HB. destruct HB as (HB & HBs & HBc & HBl).
-    assert (H0 : R mi s (set_pos (set_rt s mi rB) pB)).
-    { eapply R_trans; [apply (R_ctr mi s r rB); [exact Er|congruence|congruence|eapply same_acct_trans; eauto]|apply R_pos].
-      cbn. lia. }
-    destruct (zA || zB).
+        destruct (negb (cb r =? 0) && (apply_op (cop cn) (cb rA) chg =? 0) && negb (zb rA)) eqn:Ez; cbn;
+          (repeat split; try solve [lia | reflexivity | auto]).
+        apply andb_prop in Ez. destruct Ez as [_ Ez]. destruct (zb rA); [discriminate|reflexivity]. }
+    destruct XB as [[rB pB] zB]. cbn [fst snd] in HB. destruct HB as (HB & HBs & HBc & HBl & HBa & HBz).
+    assert (Hc : cur rB = cur r) by congruence.
+    assert (Hl : lim rB = lim r) by congruence.
+    assert (Hs : same_acct r rB) by (eapply same_acct_trans; eauto).
+    assert (Hp : (pos s <= pB)%nat) by lia.
+    destruct (zA || zB) eqn:Ezz.
     - mbind H as [s2 chg] E2. mbind H as sl Esl. inversion H; subst.
-      apply Htr in E2. eapply R_trans; [exact H0|]. rlogthen (LOG_CZERO, N.of_nat mi, 0). exact E2.
-    - inversion H; subst. exact H0.
+      apply Htr in E2. eapply R_trans; [|exact E2].
+      apply (R_czero mi s r rB pB); auto.
+      + unfold flags_mono. destruct zA, zB; cbn in Ezz; try discriminate;
+          repeat match goal with Hx : _ /\ _ |- _ => destruct Hx end; split; intros; congruence.
+      + unfold zc_rt. rewrite HBa.
+        destruct zA, zB; cbn in Ezz; try discriminate;
+          repeat match goal with Hx : _ /\ _ |- _ => destruct Hx end;
+          repeat match goal with Hx : za _ = _ |- _ => rewrite Hx in * end;
+          repeat match goal with Hx : zb _ = _ |- _ => rewrite Hx in * end;
+          try (destruct (za r)); try (destruct (zb r)); try (destruct (zb rA)); cbn; lia.
+    - assert (zA = false /\ zB = false) by (destruct zA, zB; cbn in Ezz; auto; discriminate).
+      destruct H0 as [-> ->]. inversion H; subst.
+      apply (R_ctr mi s r rB pB); auto; congruence.
   Qed.
 
   Lemma transition_P : forall fuel s mi ev s' b,
@@ -316,6 +356,20 @@ Section Preorder.
     apply (R_rt mi _ r); [exact Hr|destruct (0 <? lim r); sa].
   Qed.
 
+  Lemma R_ctr_coarse : forall mi s r r' p,
+    nth_error (rts s) mi = Some r -> same_acct r r' -> (pos s <= p)%nat ->
+    R mi s (set_pos (set_rt s mi r') p).
+  Proof.
+    intros mi s r r' p Hr Hs Hp. eapply R_trans; [eapply R_rt; eauto|apply R_pos; exact Hp].
+  Qed.
+
+  Lemma R_czero_coarse : forall mi s r r' p,
+    nth_error (rts s) mi = Some r -> same_acct r r' -> (pos s <= p)%nat ->
+    R mi s (add_log (set_pos (set_rt s mi r') p) (LOG_CZERO, N.of_nat mi, 0)).
+  Proof.
+    intros mi s r r' p Hr Hs Hp. eapply R_trans; [eapply R_ctr_coarse; eauto|apply R_log].
+  Qed.
+
   Lemma R_sigset_coarse : forall mi s,
     R mi s (set_sigp (add_log s (LOG_SIGSET, N.of_nat mi, 0)) (Some (sig_join (sigp s) mi))).
   Proof. intros mi s. eapply R_trans; [apply R_log|apply R_sig]. Qed.
@@ -331,7 +385,8 @@ Section Preorder.
     update_counter trans c tp s mi = Ok (s', al, ch) -> R mi s s'.
   Proof.
     apply (update_counter_P c tp R); auto.
-    intros; eapply R_rt; eauto.
+    - intros; eapply R_ctr_coarse; eauto.
+    - intros; eapply R_czero_coarse; eauto.
   Qed.
 
   Lemma transition_R : forall fuel s mi ev s' b,
@@ -340,7 +395,8 @@ Section Preorder.
     apply (transition_P c tp R); auto.
     - intros; eapply R_rt; eauto; sa.
     - apply R_change_coarse.
-    - intros; eapply R_rt; eauto.
+    - intros; eapply R_ctr_coarse; eauto.
+    - intros; eapply R_czero_coarse; eauto.
     - apply R_sigset_coarse.
   Qed.
 
@@ -349,7 +405,8 @@ Section Preorder.
     apply (decrement_limit_P c tp R); auto.
     - intros; eapply R_rt; eauto; sa.
     - apply R_change_coarse.
-    - intros; eapply R_rt; eauto.
+    - intros; eapply R_ctr_coarse; eauto.
+    - intros; eapply R_czero_coarse; eauto.
     - apply R_dec_coarse.
     - apply R_sigset_coarse.
   Qed.
